@@ -18,6 +18,8 @@ func main() {
 	switch os.Args[1] {
 	case "probe":
 		probeMain(os.Args[2:])
+	case "render":
+		renderMain(os.Args[2:])
 	case "replay":
 		replayMain(os.Args[2:])
 	case "att":
